@@ -9,6 +9,7 @@ pub mod timing;
 #[cfg(feature = "hooks")]
 pub mod insitu;
 pub mod rename;
+pub mod notprobe;
 
 #[cfg(feature = "hooks")]
 fn with_insitu(direct: Box<dyn Workload>, which: usize, tier: Tier, seed: u64) -> Box<dyn Workload> {
@@ -27,7 +28,7 @@ pub fn make(prop: &str, tier: Tier, seed: u64) -> Option<Box<dyn Workload>> {
         "C10" => with_insitu(Box::new(rename::C10::new(tier, seed)), 4, tier, seed),
         "C01" => Box::new(search::Search::new(search::Which::C01, tier, seed)),
         "C02" => Box::new(search::Search::new(search::Which::C02, tier, seed)),
-        "C03" => Box::new(search::Search::new(search::Which::C03, tier, seed)),
+        "C03" => Box::new(Compose { parts: vec![Box::new(notprobe::NotProbe::new()), Box::new(search::Search::new(search::Which::C03, tier, seed))] }),
         "C04" => Box::new(search::Search::new(search::Which::C04, tier, seed)),
         "C05" => Box::new(search::Search::new(search::Which::C05, tier, seed)),
         "C11" => Box::new(search::Search::new(search::Which::C11, tier, seed)),
